@@ -32,7 +32,7 @@ zero panic. -/
 def goDiv (a b : Int) : Option Int := if b == 0 then none else some (Int.tdiv a b)
 
 /-- `calculateMaxCreation` (rollingupdate.go). Returns `.err` for an unparsable additive increase,
-`.panic` for a nil pointer or a zero slow-start interval (division by zero). -/
+`.panic` for a nil pointer. -/
 def calculateMaxCreation (inc : Option IntOrStr) (interval : Option Dur) (maxParallel : Option Int)
     (nbNodes : Int) (rsStart now : Time) : Outcome Int :=
   match resolveIntOrPercent inc nbNodes with
@@ -41,12 +41,14 @@ def calculateMaxCreation (inc : Option IntOrStr) (interval : Option Dur) (maxPar
     match interval with
     | none => .panic
     | some iv =>
-      match goDiv (now - rsStart) iv with
+      match maxParallel with
       | none => .panic
-      | some slots =>
-        match maxParallel with
+      | some mp =>
+        -- F7b repair: a non-positive interval means no slow start
+        if iv ≤ 0 then .ok mp else
+        match goDiv (now - rsStart) iv with
         | none => .panic
-        | some mp =>
+        | some slots =>
           let r := (1 + slots) * startValue
           .ok (if r > mp then mp else r)
 
